@@ -603,8 +603,11 @@ pub fn check_ws_backpressure(c: &super::c05_ws::WsCase) -> CheckResult {
         let id = u64::from_le_bytes(m[16..24].try_into().unwrap());
         let idx = id.wrapping_sub(1) as usize;
         ensure!(idx < n, "WebSocket:unsolicited-response", "a response carries id {id:#x}, which no request had");
+        // (a response over the server's assumed peer frame limit is answered by the server's
+        // own error reply with the same id: that is C17's subject; here it counts as the response)
+        let replaced = obs.limit.is_some_and(|l| obs.expected_responses[idx].len() > l);
         ensure!(
-            *m == obs.expected_responses[idx],
+            replaced || *m == obs.expected_responses[idx],
             "WebSocket:response-differs",
             "the response to request {id} is not the handler's answer with the request's id and query: {}",
             crate::util::diff_msg("response vs expected", m, &obs.expected_responses[idx])
